@@ -87,7 +87,13 @@ def _print_Piecewise(
         else:
             return printer._print(cond)
 
-    expr = sympy.simplify(expr)
+    try:
+        expr = sympy.simplify(expr)
+    except Exception:
+        # Simplification is only cosmetic. sympy fails on some conditions that
+        # contain unevaluated numbers (e.g. `V < -1*40.0` from a Myokit import):
+        # "TypeError: did not evaluate to a bool". Print the expression as it is.
+        logger.debug("Could not simplify Piecewise, printing it unsimplified")
 
     exprs = [printer._print(arg.expr) for arg in expr.args]
     conds = [print_cond(arg.cond) for arg in expr.args]
